@@ -472,11 +472,12 @@ def part_override(ctx, model_ok, n, huge_ok):
         if model_ok:
             zl = outs[idx]
             model_accept = zl != [-1]
-            # the allocation step alone (before the round-trip comparison in set_data_positions)
-            alloc_rejected = (not accepted) and res[1] == "StorageLayoutException"
-            if model_accept == alloc_rejected:
-                ctx.violation("correspondence-broken", f"override allocation: model {'accepts' if model_accept else 'rejects'} but compiler "
-                              f"{'raises StorageLayoutException' if alloc_rejected else 'does not'} [{kind}]", dict(detail, model=str(zl)[:300]))
+            # set_data_positions accepts iff the allocation step (model) accepts and the file equals the export
+            # exactly (round-trip comparison); the exception class of a rejection is not part of the property
+            if accepted != (model_accept and exact):
+                ctx.violation("correspondence-broken", f"override: model {'accepts' if model_accept else 'rejects'} the allocation"
+                              f"{'' if exact else ' (file inexact: round trip must reject)'} but compiler "
+                              f"{'accepts' if accepted else 'rejects'} [{kind}]", dict(detail, model=str(zl)[:300]))
                 found = True
                 break
             if model_accept and accepted:
